@@ -3,6 +3,7 @@ CONSTANTS
   Alphabet = {1,2}
   MaxLen = 4
   BruteLen = 4
+  GapVals <- MCGapNeg
   FreeGaps = FALSE
 INIT Init
 NEXT Next
